@@ -101,6 +101,10 @@ def vector_frame(ctx, rule="R16.3"):
 
 
 def run(ctx):
+    from . import C15_kernels as _K
+
+    _K.accumulator_reset(ctx, rule="R16.6")  # mode-summation kernels: phase reset per mode, every point and mode visited (shared with C15)
+    _K.full_extent(ctx, rule="R16.6")
     prog = ctx.prog
     fn = prog.func(SUM, "summate_incompr")
     site = SUM + "::summate_incompr"
